@@ -47,6 +47,10 @@ enum : int
     ev_call_destroy = 26
 };
 
+// the exception of a throwing operator. The catching thread never reads the object: it identifies the exception by
+// the identity of its std::exception_ptr (kept alive in the call's registry until the scenario is over), because the
+// reference count of exception objects lives in the uninstrumented libstdc++ and ThreadSanitizer would otherwise
+// report the reader in the caller against the release of the last reference in the worker (a false positive).
 struct task_exc
 {
     int     call;
@@ -84,6 +88,7 @@ struct call_t
     std::pair<int64_t, int64_t>         raw[MAXT];
     int64_t                             res{-1}, fin_at_return{-1};
     future_t                            future;
+    std::vector<std::exception_ptr>     eptrs; // one slot per entry of `throws`, written by the throwing operator
 
     call_t()
     {
@@ -277,7 +282,8 @@ void do_op(ctx_t* c, call_t& m, int64_t begin, int64_t end, size_t tnum)
     {
         std::this_thread::sleep_for(std::chrono::microseconds(m.work_us));
     }
-    const bool throws = std::find(m.throws.begin(), m.throws.end(), pos) != m.throws.end();
+    const auto it     = std::find(m.throws.begin(), m.throws.end(), pos);
+    const bool throws = it != m.throws.end();
     plog(ev_op_end, m.id, throws ? 1 : 0);
     if (tnum_ok)
     {
@@ -286,7 +292,9 @@ void do_op(ctx_t* c, call_t& m, int64_t begin, int64_t end, size_t tnum)
     m.fin.fetch_add(1);
     if (throws)
     {
-        throw task_exc{m.id, pos};
+        auto ep = std::make_exception_ptr(task_exc{m.id, pos});
+        m.eptrs[static_cast<size_t>(it - m.throws.begin())] = ep;
+        std::rethrow_exception(ep);
     }
 }
 
@@ -298,17 +306,21 @@ void guarded(call_t& m, const tcall& call)
         call();
         m.res = 0;
     }
-    catch (const task_exc& e)
-    {
-        m.res = (e.call == m.id) ? (1 + e.pos) : OTHER;
-    }
     catch (const std::future_error&)
     {
         m.res = BROKEN;
     }
     catch (...)
     {
-        m.res = OTHER;
+        m.res          = OTHER;
+        const auto cur = std::current_exception();
+        for (size_t k = 0; k < m.eptrs.size(); ++k)
+        {
+            if (m.eptrs[k] != nullptr && m.eptrs[k] == cur)
+            {
+                m.res = 1 + m.throws[k];
+            }
+        }
     }
     m.fin_at_return = m.fin.load();
     m.returned.store(true);
@@ -518,6 +530,9 @@ std::string vh::execute(toks_t& t, std::string& aug)
             {
                 throw bad_op("bad call kind");
             }
+            std::sort(m->throws.begin(), m->throws.end());
+            m->throws.erase(std::unique(m->throws.begin(), m->throws.end()), m->throws.end());
+            m->eptrs.resize(m->throws.size());
             m->cnt   = std::make_unique<std::atomic<int>[]>(static_cast<size_t>(std::max<int64_t>(m->nops, 1)));
             m->cover = std::make_unique<std::atomic<int>[]>(static_cast<size_t>(std::max<int64_t>(m->n, 1)));
             for (int64_t i = 0; i < m->nops; ++i)
